@@ -167,3 +167,78 @@ func attachSweep() (names []string, cases [][]string) {
 	}
 	return
 }
+
+// chanCfg serves a stream with enough medias for sessions that hold three and ask for a fourth.
+var chanCfg = Cfg{Mask: 255, UDP: true, NMedias: 4}
+
+// channelSweep: the explicit-channel axis of TCP SETUPs.  A session already holds 1–3 medias whose
+// interleaved pairs were assigned automatically or asked for explicitly; the next SETUP asks for
+// a-(a+1) with a in 0..7 (odd starts included), a-a, a-(a+2) or (a+1)-a.  A second connection is
+// attached first, so that the session survives the connection a refused SETUP closes; it then starts
+// streaming and every channel is probed with a frame.
+func channelSweep() (names []string, cases [][]string) {
+	patterns := [][]int{ // -1 = assigned by the server, n = explicit pair n-(n+1)
+		{-1}, {-1, -1}, {-1, -1, -1}, {2}, {2, -1}, {4, 0}, {3}, {1, 5}, {2, 6, -1}, {5, -1}, {0, 3},
+	}
+	type ask struct{ il, a int }
+	var asks []ask
+	for a := 0; a <= 7; a++ {
+		asks = append(asks, ask{1, a})
+	}
+	asks = append(asks, ask{3, 0}, ask{3, 3}, ask{2, 0}, ask{2, 3}, ask{4, 1}, ask{4, 2}, ask{0, 0})
+	alt := func(mode, il, a int) string { return fmt.Sprintf("t.0.%d.1.%d.%d", mode, il, a) }
+	for _, record := range []bool{false, true} {
+		mode, start, dir := 1, "play", "play"
+		if record {
+			mode, start, dir = 2, "record", "record"
+		}
+		for _, pat := range patterns {
+			for _, q := range asks {
+				b := &opBuilder{}
+				b.raw("open 0 0")
+				b.raw("open 1 0")
+				if record {
+					b.req(Req{Method: "announce", Sid: "n", NAnn: len(pat) + 1})
+				}
+				for j, ch := range pat {
+					r := Req{Method: "setup", Sid: "0", Track: strconv.Itoa(j), Trs: alt(mode, 0, 0)}
+					if ch >= 0 {
+						r.Trs = alt(mode, 1, ch)
+					}
+					if j == 0 {
+						r.Sid = "n"
+					}
+					b.req(r)
+				}
+				b.req(Req{Conn: 1, Method: "getparameter", Sid: "0"})
+				b.req(Req{Method: "setup", Sid: "0", Track: strconv.Itoa(len(pat)), Trs: alt(mode, q.il, q.a)})
+				b.req(Req{Conn: 1, Method: start, Sid: "0"})
+				b.raw("chanmedia 0")
+				names = append(names, fmt.Sprintf("channels:%s,held=%v,ask=il%d:%d", dir, pat, q.il, q.a))
+				cases = append(cases, b.ops)
+			}
+		}
+	}
+	return
+}
+
+// starSweep: `*` as the request URL, with and without the Session header of an existing session, for
+// every method in every state.
+func starSweep() (names []string, cases [][]string) {
+	for _, p := range sweepPrefixes() {
+		for _, m := range rfcMethods {
+			for _, sid := range []string{"0", "n"} {
+				b := &opBuilder{}
+				b.raw("open 0 0")
+				b.raw("open 1 0")
+				p.ops(b)
+				b.req(Req{Conn: 1, Method: "getparameter", Sid: "0"}) // keeps the session when connection 0 is closed
+				b.req(Req{Method: m, Sid: sid, Star: true, Trs: trSpec(p.transport, 1, false)})
+				b.req(Req{Conn: 1, Method: "options", Sid: "0"})
+				names = append(names, fmt.Sprintf("star:%s,%s,sid=%s", p.name, m, sid))
+				cases = append(cases, b.ops)
+			}
+		}
+	}
+	return
+}
